@@ -7,5 +7,8 @@ CONSTANTS
   ClChk = FALSE
   Threaded = TRUE
   FinalValid = FALSE
+  QCap = 0
+  Gating = FALSE
+  QfRet = TRUE
 INVARIANT InvExactlyOneResponse
 CHECK_DEADLOCK FALSE
